@@ -7,11 +7,23 @@ import c10_gen as G
 import c10_universe as U
 
 THEOREMS = [
-    'C10_syntax_xml', 'C10_syntax_soap', 'C10_syntax_json', 'C10_syntax_yaml', 'C10_syntax_msgpack',
-    'C10_leaf_total', 'C10_xml_total', 'C10_soap_total', 'C10_dict_total', 'C10_dict_fuel_sufficient',
-    'C10_xml_wsgi_total', 'C10_soap_wsgi_total', 'C10_dict_wsgi_total',
+    'C10_syntax_xml', 'C10_syntax_soap', 'C10_syntax_json', 'C10_syntax_yaml_refuted', 'C10_syntax_yaml_partial',
+    'C10_syntax_msgpack', 'C10_leaf_total', 'C10_xml_total', 'C10_soap_total', 'C10_dict_total',
+    'C10_dict_fuel_sufficient', 'C10_xml_wsgi_total', 'C10_soap_wsgi_total', 'C10_dict_wsgi_total',
     'C10_fault_means_not_called', 'C10_get_out_object_guard',
 ]
+
+# what each parser library may raise, as assumed by the theorems (C10/Proofs.v XML_FIRST,
+# C10/ProofsDict.v JSON_RAISES / YAML_RAISES / MSGPACK_RAISES); every library failure met by the
+# harness is checked against it
+LIB_RAISES = {
+    'xml': ('EXMLSyntaxError', 'EValueError'), 'soap11': ('EXMLSyntaxError', 'EValueError'),
+    'soap12': ('EXMLSyntaxError', 'EValueError'),
+    'json': ('EValueError', 'EJSONDecodeError', 'EUnicodeDecodeError', 'ERecursionError'),
+    'yaml': ('EYAMLError', 'EMarkedYAMLError', 'EScannerError', 'EParserError', 'EComposerError', 'EConstructorError',
+             'EReaderError', 'EValueError', 'EUnicodeDecodeError'),
+    'msgpack': ('EValueError', 'EMsgpackExtraData', 'EMsgpackFormatError', 'EMsgpackStackError', 'EUnicodeDecodeError'),
+}
 
 
 # ------------------------------------------------------------------ replay format
@@ -208,14 +220,90 @@ def yaml_deep_nesting(check):
                    {'protocol': 'yaml', 'body_repr': "b'[' * %d + b']' * %d" % (YAML_DEEP, YAML_DEEP)})
 
 
+def leaf_correspondence(check, sv):
+    """Leaf.v readers against the real from_unicode of XmlDocument / Soap11, per primitive kind"""
+    import c10_universe
+    rng = check.rng
+    table = coq_class_table()
+    leaf = c10_universe._leaf_classes()
+    from spyne.model.enum import Enum
+    Color = Enum(*c10_universe.ENUM_VALUES, type_name='Color')
+    kinds = [('int', '(LInt (Fin 1024))'), ('text', 'LText'), ('bool', 'LBool'), ('datetime', 'LDateTime'), ('date', 'LDate'),
+             ('time', 'LTime'), ('duration', 'LDur'), ('bytes', 'LBytes'), ('enum', '(LEnum %s)' % glist([gtext(v) for v in c10_universe.ENUM_VALUES]))]
+    texts = [t for t in G.XML_JUNK_TEXT if t] + [str(v) if not isinstance(v, str) else v for vs in G.VALID_LEAF.values() for v in vs
+                                                 if not isinstance(v, (dict, bytes))]
+    texts += ['2020-01-02T03:04:05+14:00', '2020-01-02T03:04:05-23:59', '2020-01-02T03:04:05+24:00', '2020-02-29', '2021-02-29',
+              '2020-02-30Z', '2020-04-31+01:00', '23:59:60', '00:00:00.0000001', '2020-01-02 03:04:05', '2020-1-2', 'P1Y2M3DT4H5M6.7S',
+              '-PT0S', 'YQ==', 'YQ=', 'Y', '+5', '-', '1' * 1025, 'True', 'TRUE', 'green ', 'redx']
+    texts = sorted(set(t for t in texts if t and all(ord(c) < 128 for c in t)))
+    cases = []
+    for soap in (False, True):
+        prot = sv.app('model', 'soap11' if soap else 'xml', None).in_protocol
+        for kn, gk in kinds:
+            cls = Color if kn == 'enum' else leaf[kn]
+            for s in texts:
+                try:
+                    if kn == 'bytes':
+                        prot.from_unicode(cls, s, prot.binary_encoding)
+                    elif kn == 'enum':
+                        prot.enum_base_from_bytes(cls, s)
+                    else:
+                        prot.from_unicode(cls, s)
+                    exp = 'None'
+                except Exception as e:
+                    names = ['%s.%s' % (c.__module__, c.__qualname__) for c in type(e).__mro__]
+                    exp = '(Some (%s, %s))' % (g_exc(names, table), gtext(getattr(e, 'faultcode', '') or ''))
+                cases.append(('(%s, %s, %s, %s)' % (gbool(soap), gk, gtext(s), exp), '%s %s %r -> %s' % ('soap' if soap else 'xml', kn, s, exp[:40])))
+                check.count(('leaf', soap, kn, s))
+    lib.correspond(check, 'leaf_readers', IMPORTS + 'Open Scope Z_scope.', 'bool * lkind * text * option (pyexn * text)',
+                   '(fun c => match c with (soap, k, s, e) => oclass_eqb (res_class (read_leaf soap g_inbase_enum_member k s)) e end)',
+                   cases, show='(fun c : bool * lkind * text * option (pyexn * text) => match c with (soap, k, s, e) => res_class (read_leaf soap g_inbase_enum_member k s) end)')
+
+
 def run(check):
-    check.rule = 'TODO'
+    check.rule = ('the modelled application (two classes, four methods: every modelled primitive kind, nesting, arrays, '
+                  'repeated members, an XML attribute, mandatory / non-nillable members) and a richer one for the direct oracle '
+                  '(adds Decimal, Double, Uuid, bounded integers, pattern/length facets, hex binary, AnyDict, AnyXml); a request '
+                  'is a valid call of a random method with 0..3 structure-aware mutations (leaf corruption, deletion, duplication, '
+                  'unknown members, wrong value kinds, wrong nesting, xsi:nil / xsi:type / id / href attributes, entity '
+                  'references), rendered for XmlDocument, Soap11, Soap12, JsonDocument, YamlDocument, MessagePackDocument, '
+                  'MessagePackRpc and HttpRpc (GET), plus truncations at every/sampled prefixes, byte corruption, random bytes, a '
+                  'fixed corpus of parser-defeating inputs and WSGI header variations; every validator setting (None, soft, and '
+                  'lxml for the XML family), through ServerBase and through WsgiApplication.  A case is distinct by (service, '
+                  'protocol, validator, transport, body, transport parameters)')
+    check.trusted = list(lib.COMMON_TRUSTED) + [
+        'translator harness/translate/pipeline.py (the try/except clauses, guards, raise statements and call skeletons of the '
+        'request-decoding pipeline, the exception class hierarchy and the Fault CODEs -> Gen/Pipeline.v)',
+        'translator harness/translate/numtypes.py (validate_string of Integer -> Gen/NumTypes.v)',
+        'harness/c10_universe.py: the introspection that renders the built Spyne application (interface.classes, '
+        'service_method_map, member Attributes) and parsed documents (lxml trees, json/yaml/msgpack values) as Gallina terms',
+        'the C08 models of the regular expressions, strptime, int(), base64 and duration arithmetic (coq/C08, tied by C08\'s '
+        'own correspondence) on which the leaf readers of C10/Leaf.v are built',
+        'the direct oracle harness/c10_drive.py:judge (the property as a predicate on one observation)',
+    ]
+    check.assumptions = [
+        'parser libraries are oracles: lxml raises XMLSyntaxError (ValueError only for str input with an encoding '
+        'declaration); json.loads raises ValueError subclasses or RecursionError; yaml.load raises the YAMLError family or '
+        'ValueError; msgpack.unpackb raises ValueError subclasses.  Every library failure met in a run is checked against these '
+        'sets; PyYAML\'s AttributeError / KeyError on explicit !!timestamp / !!bool tags are known findings '
+        '(C10_syntax_yaml_refuted); a crash inside C code (libyaml stack overflow on ~10^4 levels of nesting) is a known finding',
+        'the theorems quantify over ALL documents and ALL well-formed applications of the modelled universe: default-facet '
+        'Integer, Unicode, Boolean, DateTime, Date, Time, Duration, ByteArray(base64), enumerations, ComplexModel classes '
+        'without inheritance, Array, repeated members, XmlAttribute; Decimal, Double, Uuid, bounded integers, facets, AnyDict, '
+        'AnyXml, File, inheritance, SOAP headers and href/id resolution, MessagePackRpc and HttpRpc are decided by the direct '
+        'oracle only',
+        'the response side (fault serialisation, HTTP status) is observed by the oracle, not modelled (C09, C13)',
+        'time and memory are outside the model',
+    ]
     check.regen(['pipeline', 'numtypes'])
+    check.check_sources()
+    check.prove('Props.C10', THEOREMS)
     ok, log = lib.build(['C10/Corr.vo'])
     if not ok:
         check.log(log[-3000:])
         check.broken.append(('build', 'C10/Corr.vo', log[-400:]))
     sv = D.Services()
+    leaf_correspondence(check, sv)
     correspondence(check, sv)
     if not os.environ.get('C10_SKIP_ORACLE'):
         oracle_campaign(check, sv, 'rich', U.RICH_DESC)
@@ -299,6 +387,7 @@ def xml_case(sv, term, table, proto, validator, body):
     root, exc = lib_parse_xml(prot, body, soap)
     if root is None:
         first = '(LibRaise %s)' % g_exc(exc, table)
+        LIB_SEEN.append((proto, g_exc(exc, table), exc[0], body))
         verdict = None
     else:
         if soap and U.has_ids(root):
@@ -359,8 +448,10 @@ def dict_case(sv, term, table, proto, validator, body):
     key = ''
     if dexc is not None:
         rq = '(mkdreq (Some %s) (LibRaise EException))' % g_exc(dexc, table)
+        LIB_SEEN.append((proto, g_exc(dexc, table), dexc[0], body))
     elif lexc is not None:
         rq = '(mkdreq None (LibRaise %s))' % g_exc(lexc, table)
+        LIB_SEEN.append((proto, g_exc(lexc, table), lexc[0], body))
     else:
         try:
             rq = '(mkdreq None (LibOk %s))' % U.g_jv(doc)
@@ -382,6 +473,8 @@ def dict_case(sv, term, table, proto, validator, body):
     t = '(KDict %s %s %s %s %s)' % (P, gbool(validator == 'soft'), rq, gtext(key), exp)
     return t, '%s validator=%s %r -> %s' % (proto, validator, body[:200], obs.short())
 
+
+LIB_SEEN = []
 
 CASE_PRELUDE = '''
 Inductive kase :=
@@ -445,6 +538,17 @@ def correspondence(check, sv):
             cases['xml' if p == 'xml' else 'soap' if p in D.XML_FAMILY else 'dict'].append(c)
             check.count(('corr', p, v, b))
     check.extra['correspondence_skipped_outside_universe'] = skipped
+    # the library assumptions of the theorems, against what the libraries did in this run
+    seen = {}
+    for proto, coq, name, body in LIB_SEEN:
+        seen.setdefault((proto, coq, name), body)
+    outside = [(k, b) for k, b in seen.items() if k[1] not in LIB_RAISES[k[0]]]
+    check.extra['library_exceptions_seen'] = sorted('%s: %s (%s)' % k for k in seen)
+    for (proto, coq, name), body in outside:
+        if proto == 'yaml' and (b'!!timestamp' in body or b'!!bool' in body):
+            continue          # the two PyYAML defects listed as known findings (C10_syntax_yaml_refuted)
+        check.mismatch('library-assumption', '%s raised %s (%s) for %r: outside the set the theorems assume'
+                       % (proto, name, coq, body[:120]))
     for name, cs in cases.items():
         lib.correspond(check, 'pipeline_' + name, prelude, 'kase', 'kase_ok', cs, shard=150,
                        show='run_kase')
